@@ -110,6 +110,13 @@ func c01Structured() []kindDef {
 		{name: "allof-inline-ref", mk: func() *dialect.Schema {
 			return &dialect.Schema{AllOf: []*dialect.Schema{{Type: "object", Props: []dialect.Prop{{Name: "extra", Schema: &dialect.Schema{Type: "boolean"}}}}, {Ref: "Pet"}}}
 		}, comp: []dialect.Prop{pet}},
+		// a nullable object component as a member of allOf / a variant of oneOf (refused by the generator)
+		{name: "allof-nullable-member", mk: func() *dialect.Schema {
+			return &dialect.Schema{AllOf: []*dialect.Schema{{Ref: "MaybePet"}, {Type: "object", Props: []dialect.Prop{{Name: "extra", Schema: &dialect.Schema{Type: "boolean"}}}}}}
+		}, comp: []dialect.Prop{{Name: "MaybePet", Schema: func() *dialect.Schema { s := objAB(); s.Nullable = true; return s }()}}},
+		{name: "oneof-nullable-variant", mk: func() *dialect.Schema {
+			return &dialect.Schema{OneOf: []*dialect.Schema{{Ref: "MaybePet"}, {Ref: "Pet"}}}
+		}, comp: []dialect.Prop{pet, {Name: "MaybePet", Schema: func() *dialect.Schema { s := objAB(); s.Nullable = true; return s }()}}},
 		{name: "allof-ref-ref", mk: func() *dialect.Schema {
 			return &dialect.Schema{AllOf: []*dialect.Schema{{Ref: "Pet"}, {Ref: "Dog"}}}
 		}, comp: []dialect.Prop{pet, {Name: "Dog", Schema: &dialect.Schema{Type: "object", Props: []dialect.Prop{{Name: "bark", Schema: &dialect.Schema{Type: "boolean"}}}}}}},
@@ -360,6 +367,15 @@ func c01Matrix() []c01cell {
 		}
 	}
 	for _, ct := range []string{"application/octet-stream", "text/plain", "application/xml", "image/png", "multipart/form-data", "application/x-www-form-urlencoded"} {
+		{
+			// a request body component with this content only, used through an alias (and an alias of the alias)
+			sp := c01Base()
+			bin := &dialect.Schema{Type: "string", Format: "binary"}
+			sp.CompBodies = map[string]dialect.Body{"RawBody": {Content: ct, Schema: bin}, "AliasBody": {Ref: "RawBody"}, "AliasOfAlias": {Ref: "AliasBody"}}
+			sp.Paths = []*dialect.PathItem{{Raw: "/x", Ops: []*dialect.Op{{Method: "POST", Body: &dialect.Body{Ref: "AliasBody"}, Responses: okResp()}}},
+				{Raw: "/y", Ops: []*dialect.Op{{Method: "PUT", Body: &dialect.Body{Ref: "AliasOfAlias"}, Responses: okResp()}}}}
+			add(fmt.Sprintf("raw/%s/reqbody-alias-raw", ct), sp, "raw", ct, "reqbody-alias")
+		}
 		for _, pos := range []string{"req", "resp", "both", "resp-default"} {
 			sp := c01Base()
 			o := &dialect.Op{Method: "POST", Responses: okResp()}
